@@ -10,9 +10,13 @@ CONSTANTS
   Points <- Pts1
   Feeds <- NoFeeds
   PhaseMaps <- Ph1
-  ReKVals <- NoReK
-  MaxHist = 0
-  Configs <- CfgAllUk2
+  ReKVals <- ReK1
+  MaxHist = 1
+  NameMap <- NmIon
+  PForms <- PfPlain
+  Containers <- CtList
+  OvKVals <- Ov3
+  Configs <- CfgMainQ
   Comp <- CompDef
 INVARIANT FreeVsInlinedAgree
 INVARIANT ConfigOnlyChangesFreeSymbols
